@@ -718,6 +718,7 @@ func famCodec(dir string, seed int64, tier string) {
 	}
 
 	apiHugeBlob(repDec)
+	apiLongStreamReaders(repDec, r)
 	wEnc.flush()
 	wWf.flush()
 	wDec.flush()
